@@ -149,6 +149,43 @@ def frame_obligations():
         callees = sorted({ast.unparse(c.func).split(".")[-1] for c in ast.walk(dz) if isinstance(c, ast.Call) and any(isinstance(a, ast.Name) and a.id == "cst_list" for a in c.args)})
         ok = set(callees) <= set(allowed)
         obs.append(("doctransify_cst/cst_list-only-to-framed-functions", ok, "cst_list is passed only to %s" % callees if ok else "cst_list is passed to %s" % callees))
+    # ---- annotations written into a header are valid Python: to_annotation builds a Name from the type STRING only for the
+    # members of simple_types (checked below to be identifiers); every other node it returns comes out of ast.parse, which
+    # raises on prose such as `list of float` -- before doctrans opens the file (L1), so the file stays untouched
+    ta, _s, _p = extract.find_def("cdd.shared.ast_utils", "to_annotation")
+    ok = None
+    detail = "to_annotation not found"
+    if ta is not None:
+        par = {}
+        for n in ast.walk(ta):
+            for ch in ast.iter_child_nodes(n):
+                par[id(ch)] = n
+        names = [c for c in ast.walk(ta) if isinstance(c, ast.Call) and ast.unparse(c.func) == "Name" and c.args and ast.unparse(c.args[0]) == "typ"]
+
+        def guarded(c):
+            ch, p_ = c, par.get(id(c))
+            while p_ is not None:
+                if isinstance(p_, ast.IfExp) and ch is p_.body and ast.unparse(p_.test) == "typ in simple_types":
+                    return True
+                if isinstance(p_, ast.If) and any(ch is b_ for b_ in p_.body) and ast.unparse(p_.test) == "typ in simple_types":
+                    return True
+                ch, p_ = p_, par.get(id(p_))
+            return False
+
+        handlers = [h for h in ast.walk(ta) if isinstance(h, ast.ExceptHandler)]
+        ok = all(guarded(c) for c in names) and not handlers
+        detail = ("every Name(typ, ...) in to_annotation is built under `typ in simple_types`, and no exception of ast.parse is swallowed" if ok
+                  else "Name(typ, ...) outside `typ in simple_types`: %d of %d; exception handlers: %d" % (sum(1 for c in names if not guarded(c)), len(names), len(handlers)))
+    obs.append(("to_annotation/a-Name-is-built-from-the-type-string-only-for-simple_types", ok, detail))
+    try:
+        import importlib
+        import keyword
+
+        st_ = importlib.import_module("cdd.shared.pure_utils").simple_types
+        bad = sorted(repr(k) for k in st_ if k is not None and not (isinstance(k, str) and k.isidentifier() and not keyword.iskeyword(k)))
+        obs.append(("simple_types/every-key-is-an-identifier", not bad, "the %d non-None keys of the real simple_types are identifiers" % (len(st_) - (None in st_)) if not bad else "keys that are not identifiers: %s" % bad))
+    except Exception as ex:
+        obs.append(("simple_types/every-key-is-an-identifier", None, "could not read the table: %s" % ex))
     return obs
 
 
@@ -159,6 +196,9 @@ DOCS = {
     "google": '    """\n    Summary of {n}\n\n    Args:\n      a (int): the a\n      b (str): the b\n\n    Returns:\n      int: the result\n    """\n',
     "numpydoc": '    """\n    Summary of {n}\n\n    Parameters\n    ----------\n    a : int\n        the a\n    b : str\n        the b\n\n    Returns\n    -------\n    int\n        the result\n    """\n',
     "none": "",
+    # types given as prose, which is not an expression: the conversion has to refuse (file untouched) or write valid Python
+    "prose-google": '    """\n    Summary of {n}\n\n    Args:\n      a (list of float): the a\n      b (str): the b\n\n    Returns:\n      int: the result\n    """\n',
+    "prose-rest": '    """\n    Summary of {n}\n\n    :param a: the a\n    :type a: ```list of str```\n\n    :param b: the b\n    :type b: ```str```\n\n    :return: the result\n    :rtype: ```int or None```\n    """\n',
     # a docstring that consists of type lines only (it becomes EMPTY once the types move into the header)
     "typesonly": '    """\n    :type a: ```int```\n\n    :type b: ```str```\n\n    :rtype: ```int```\n    """\n',
 }
